@@ -607,6 +607,37 @@ func c20Continuation(w *c20World, sc c20Scenario) []c20Step {
 	return steps
 }
 
+// per (module, prefix) comparison of the two branches: one `p` line each
+func c20DumpCompare(a *chain.App, tr *tracer, mods []c20Module, orig, reimp sdk.Context) {
+	for _, m := range mods {
+		do, dn := c20Dump(a, orig, m.store), c20Dump(a, reimp, m.store)
+		if po := c20ParamDump(a, orig, m.store); len(po) > 0 {
+			do[256] = po
+		}
+		if pn := c20ParamDump(a, reimp, m.store); len(pn) > 0 {
+			dn[256] = pn
+		}
+		bytes := map[int]bool{}
+		for b := range do {
+			bytes[b] = true
+		}
+		for b := range dn {
+			bytes[b] = true
+		}
+		var bs []int
+		for b := range bytes {
+			bs = append(bs, b)
+		}
+		sort.Ints(bs)
+		for _, b := range bs {
+			mo, lo, co := c20Stats(do[b])
+			mn, ln, cn := c20Stats(dn[b])
+			tr.p("p %s %d %d %d %d %d %d %d %d %d E%s N%s", m.name, b, len(do[b]), len(dn[b]), mo, lo, mn, ln, co, cn,
+				c20EntriesStr(do[b]), c20EntriesStr(dn[b]))
+		}
+	}
+}
+
 // ---------------------------------------------------------------------------------------------
 // TestC20: populate -> ExportGenesis of every DeFi module -> JSON -> InitGenesis into emptied module
 // stores (a branch of the same chain, so that bank / auth / staking state is identical) -> compare
@@ -685,33 +716,7 @@ func TestC20(t *testing.T) {
 			}
 			tr.p("imp %s %s", m.name, class)
 		}
-		for _, m := range mods {
-			do, dn := c20Dump(a, orig, m.store), c20Dump(a, reimp, m.store)
-			if po := c20ParamDump(a, orig, m.store); len(po) > 0 {
-				do[256] = po
-			}
-			if pn := c20ParamDump(a, reimp, m.store); len(pn) > 0 {
-				dn[256] = pn
-			}
-			bytes := map[int]bool{}
-			for b := range do {
-				bytes[b] = true
-			}
-			for b := range dn {
-				bytes[b] = true
-			}
-			var bs []int
-			for b := range bytes {
-				bs = append(bs, b)
-			}
-			sort.Ints(bs)
-			for _, b := range bs {
-				mo, lo, co := c20Stats(do[b])
-				mn, ln, cn := c20Stats(dn[b])
-				tr.p("p %s %d %d %d %d %d %d %d %d %d E%s N%s", m.name, b, len(do[b]), len(dn[b]), mo, lo, mn, ln, co, cn,
-					c20EntriesStr(do[b]), c20EntriesStr(dn[b]))
-			}
-		}
+		c20DumpCompare(a, tr, mods, orig, reimp)
 		// continuation
 		for i, st := range c20Continuation(w, sc) {
 			bo, bn := c20Balances(w, orig), c20Balances(w, reimp)
